@@ -34,6 +34,7 @@ type world struct {
 	variant  string // life: n never started | s started | t stopped ; queue: d default | c copying | h shared by two schedulers
 	scheds   []quartz.Scheduler
 	rq       *recQueue
+	fq       *faultQueue
 	locker   *recLocker
 	trigs    []*rtrig
 	calls    []call
@@ -49,7 +50,8 @@ func newWorld(variant string, misCap int) *world {
 	if variant[1] == 'c' {
 		inner = &copyQueue{inner}
 	}
-	w.rq = &recQueue{inner: inner, locker: w.locker}
+	w.fq = &faultQueue{inner: inner}
+	w.rq = &recQueue{inner: w.fq, locker: w.locker}
 	n := 1
 	if variant[1] == 'h' {
 		n = 2
@@ -109,10 +111,11 @@ func (w *world) addTrig(t *rtrig) *rtrig {
 
 // op is one command: cmd is the text for the driver without the clock reading.
 type op struct {
-	kind  byte   // 'A' api, 'F' fetch, 'X' foreign
-	text  string // A: "S name group r s tid" ...; X: "push ..." ; F: ""
-	sched int
-	run   func(s quartz.Scheduler) string // A / X: performs the call, returns the result class
+	pushFail bool   // F: the next Push of the queue fails (the reschedule push of this fetch)
+	kind     byte   // 'A' api, 'F' fetch, 'X' foreign
+	text     string // A: "S name group r s tid" ...; X: "push ..." ; F: ""
+	sched    int
+	run      func(s quartz.Scheduler) string // A / X: performs the call, returns the result class
 }
 
 var noJob = &rjob{key: "-"}
@@ -266,6 +269,9 @@ func (w *world) step(o op) (string, string) {
 		if w.misfired != nil {
 			mbefore = len(w.misfired)
 		}
+		if o.pushFail {
+			w.fq.failNext.Store(true)
+		}
 		done := make(chan struct{})
 		var job quartz.ScheduledJob
 		var valid bool
@@ -280,6 +286,7 @@ func (w *world) step(o op) (string, string) {
 			aborted = true // a blocked fetch holds the queue locker for ever: nothing more can be learnt from this process
 			return "F 0 0 - -", "BLOCKED"
 		}
+		w.fq.failNext.Store(false)
 		r := "none"
 		if err != nil {
 			r = "!" + errClass(err)
@@ -315,7 +322,11 @@ func (w *world) step(o op) (string, string) {
 	case 'X':
 		return "X " + o.text, obs
 	default:
-		return fmt.Sprintf("F %d %d %s", now, thrNS, hint), obs
+		c := "F"
+		if o.pushFail {
+			c = "FX"
+		}
+		return fmt.Sprintf("%s %d %d %s", c, now, thrNS, hint), obs
 	}
 }
 
@@ -352,11 +363,22 @@ func trigMaker(kind string) func(w *world) *rtrig {
 	}
 }
 
+// collide: distinct (name, group) pairs whose printed forms group::name coincide
+var collide = [][2]string{{"db::backup", "eu"}, {"backup", "eu::db"}}
+
 func alphabet(size string) []protoOp {
 	var out []protoOp
-	keys := [][2]string{{"a", "default"}, {"b", "default"}, {"a", "g"}, {"b", "g"}}
+	keys := [][2]string{{"a", "default"}, {"b", "default"}, {"a", "g"}, {"b", "g"}, collide[0], collide[1]}
 	trigs := []string{"si", "ro", "rx", "fl"}
 	opts := [][2]bool{{false, false}, {true, false}, {false, true}, {true, true}}
+	if size == "full4" {
+		keys = keys[:4]
+	}
+	if size == "collide" {
+		keys = collide
+		trigs = []string{"si", "rx"}
+		opts = opts[:3]
+	}
 	if size == "small" {
 		keys = [][2]string{{"a", "default"}, {"a", "g"}}
 		trigs = []string{"si", "rx"}
@@ -380,7 +402,7 @@ func alphabet(size string) []protoOp {
 	}
 	out = append(out, protoOp{func(w *world) op { return w.opClear() }})
 	out = append(out, protoOp{func(w *world) op { return w.opSchedule("a", "default", true, false, nil, false) }}) // nil trigger
-	if size != "small" {
+	if size == "full" || size == "full4" {
 		out = append(out,
 			protoOp{func(w *world) op { return w.opKeys() }},
 			protoOp{func(w *world) op { return w.opSchedule("", "", false, false, trigMaker("si")(w), true) }},              // nil job detail
@@ -464,6 +486,10 @@ func (w *world) randomOp(r *rand.Rand, withFetch bool, base int64) op {
 	names := []string{"a", "b"}
 	groups := []string{"default", "g"}
 	name, group := names[r.Intn(2)], groups[r.Intn(2)]
+	if r.Intn(5) == 0 { // two keys that differ as pairs but print alike (db::backup in eu / backup in eu::db)
+		kk := collide[r.Intn(2)]
+		name, group = kk[0], kk[1]
+	}
 	pick := r.Intn(100)
 	mkTrig := func() *rtrig {
 		if !withFetch {
@@ -504,6 +530,8 @@ func (w *world) randomOp(r *rand.Rand, withFetch bool, base int64) op {
 	}
 	var o op
 	switch {
+	case withFetch && pick < 3:
+		o = op{kind: 'F', pushFail: true}
 	case withFetch && pick < 38:
 		o = op{kind: 'F'}
 	case withFetch && pick < 44:
@@ -663,6 +691,22 @@ func runDirected(e *emitter, st *stats, only int) {
 			w.opForeignPush("a", "g", b+lateNS, false, true, u), f1, w.opForeignPush("b", "g", b+futNS, true, false, u), f, f1,
 			w.opForeignRemove("a", "g"), f, f1, w.opForeignClear(), f}
 	}})
+	for _, qv := range []string{"nd", "nc", "nh"} {
+		qv := qv
+		scenarios = append(scenarios, sc{"pushfail " + qv, func(w *world) []op {
+			b := w.born
+			fx := op{kind: 'F', pushFail: true}
+			t := w.addTrig(newScript(0, []fire{{b + dueNS, -1}, {b + dueNS + 1000, -1}, {b + dueNS + 2000, -1}, {b + futNS, -1}}, fire{0, 0}))
+			u := w.addTrig(newSimple(0, futNS))
+			l := w.addTrig(newScript(0, []fire{{b + lateNS, -1}, {b + dueNS + 5000, -1}, {b + futNS, -1}}, fire{0, 0}))
+			return []op{
+				w.opSchedule("a", "default", false, false, t, false), f, fx, f, f, // due: fetched, then the reschedule push fails
+				w.opSchedule("b", "g", false, false, u, false), fx, f, // not due: the push-back fails
+				w.opSchedule("a", "g", false, false, l, false), fx, f, // late: the re-base push fails
+				w.opSchedule("a", "default", false, true, t, false), fx, f, // suspended
+			}
+		}})
+	}
 	for i, s := range scenarios {
 		if aborted {
 			return
@@ -673,7 +717,9 @@ func runDirected(e *emitter, st *stats, only int) {
 		}
 		variant := "nd"
 		misCap := 8
-		if strings.HasPrefix(s.name, "classify") {
+		if strings.HasPrefix(s.name, "pushfail") {
+			fmt.Sscanf(s.name, "pushfail %s", &variant)
+		} else if strings.HasPrefix(s.name, "classify") {
 			fmt.Sscanf(s.name, "classify %s miscap %d", &variant, &misCap)
 		} else if s.name == "foreign-and-shared" {
 			variant = "nh"
@@ -736,13 +782,15 @@ func cmdSteps(args []string) {
 	case "api-quick":
 		runExhaustive(e, st, "small", 4, quiet, only)
 		runExhaustive(e, st, "small", 3, []string{"sd", "sh", "sc"}, only)
+		runExhaustive(e, st, "collide", 3, quiet, only)
 		runExhaustive(e, st, "full", 2, all, only)
 		runExhaustive(e, st, "full", 1, all, only)
 		runRandom(e, st, r, 600, 60, false, all, only)
 	case "api-thorough":
 		runExhaustive(e, st, "small", 4, quiet, only)
 		runExhaustive(e, st, "small", 4, []string{"sd", "sh", "sc", "tc", "th"}, only)
-		runExhaustive(e, st, "full", 3, []string{"nd", "nc", "nh"}, only)
+		runExhaustive(e, st, "collide", 4, quiet, only)
+		runExhaustive(e, st, "full4", 3, []string{"nd", "nc", "nh"}, only)
 		runExhaustive(e, st, "full", 2, all, only)
 		runExhaustive(e, st, "full", 1, all, only)
 		runRandom(e, st, r, 6000, 60, false, all, only)
